@@ -314,7 +314,9 @@ class Letter(object):
             y[2] = self.centres[1]
             w[0] = self.centres[2]
             w[6] = self.centres[0]
-        self.pool0 = {"x": x, "xc": x * (1 + 1e-7), "y": y, "s": x[:NS].copy(), "w": w}
+        # "xi" / "xf": the same points as integer and single-precision arrays (a batched path that allocates its
+        # output with the input's dtype would truncate them)
+        self.pool0 = {"x": x, "xc": x * (1 + 1e-7), "y": y, "s": x[:NS].copy(), "w": w, "xi": np.round(x).astype(np.int64), "xf": x.astype(np.float32)}
         self.alt = alt
         for k, v in self.pool0.items():
             if k != "w" and self.is_pwa and self.ref(v)[0] != "ok":
@@ -390,7 +392,13 @@ H_OPS = (
 # last level of a depth-3 (quick) / depth-4 (thorough, memo letters) history: only calls - an edit or a scribble with
 # nothing applied after it decides nothing
 H_OPS_LAST = [o for o in H_OPS if o[0] in ("apply", "applyb", "shape")]
-B_OPS = [("applyb", s, k) for s in ("x", "y") for k in range(1, 10)] + [("shape", k) for k in range(1, 10)] + [("apply", "x"), ("applyb", "s", 2), ("applyb", "s", 5), ("applyb", "s", 6)]
+B_OPS = (
+    [("applyb", s, k) for s in ("x", "y") for k in range(1, 10)]
+    + [("shape", k) for k in range(1, 10)]
+    + [("apply", "x"), ("applyb", "s", 2), ("applyb", "s", 5), ("applyb", "s", 6)]
+    + [("apply", "xi"), ("apply", "xf")]
+    + [("applyb", s, k) for s in ("xi", "xf") for k in (1, 2, 3, 7, 9)]
+)
 O_KS = (None, 1, 2, 3, 4, 5, 6, 7)
 O_OPS = [("pat", p, k) for p in range(32) for k in O_KS] + [("patshape", p, k) for p in range(32) for k in (None, 2)]
 O_OPS_SMALL = [("pat", p, k) for p in (0, 31, 1, 16, 10) for k in (None, 2, 3)] + [("patshape", p, None) for p in (0, 1, 16)]
